@@ -290,14 +290,14 @@ pub fn run(ctx: &Ctx) -> Report {
     let mut rep = Report::new(ID, "exploration", ctx);
     rep.rule = "Cases: generated mappings with injected hostile lines (every numeric slot drawn from {0,1,2,5,9,2^32-2..2^32+1,2^33,2^63-1,2^63,2^64-2,2^64-1,2^64,41 digits, leading zeros, Latin-1 'numeric' bytes}; empty / dotted / non-ASCII names; empty sourceFile names), hostile token mutants (incl. invalid UTF-8), raw bytes. Pipeline per case: iter, is_valid, has_line_info, summary, uuid, ProguardMapper::new and new_with_param_mapping, ProguardCache::write into a Vec, parse, then on mapper, mapper-with-params and cache: class / throwable / method / frame by line (0,1,2,2^32-1..2^32+1,2^63,2^64-2,2^64-1 and every range boundary of the file) / frame by params / text traces (generated, hand-picked edge cases, arbitrary Unicode) / StackTrace::try_parse + typed remap + Display / deobfuscate_signature + format_signature on strings with multi-byte characters at every slice boundary. Oracle: no panic (overflow checks on), and write, parse, remap_stacktrace return Ok. evaluations = pipelines run. Non-trivial = distinct cases with >=1 method record and a query that reaches it.".into();
     rep.assumptions = vec!["harness profile has overflow-checks=on and debug-assertions=on for the crate under test".into()];
-    rep.run_stage("hostile", hostile_case, ctx.cases(40_000, 600_000), check_hostile);
+    rep.run_stage("hostile", hostile_case, ctx.cases(40_000, 1_800_000), check_hostile);
     let cfg = GenCfg { plain_sourcefile_headers: true, ..GenCfg::default() };
-    rep.run_stage("mutants", move || mutate::hostile_case(&cfg), ctx.cases(20_000, 300_000), check_mutant);
-    rep.run_stage("strings", strings_case, ctx.cases(40_000, 600_000), check_strings);
+    rep.run_stage("mutants", move || mutate::hostile_case(&cfg), ctx.cases(20_000, 900_000), check_mutant);
+    rep.run_stage("strings", strings_case, ctx.cases(40_000, 1_800_000), check_strings);
     rep.run_stage(
         "bytes",
         || (vec(any::<u8>(), 0..160), any::<u64>()).prop_map(|(v, key)| RawCase { hex: hex(&v), key }),
-        ctx.cases(10_000, 150_000),
+        ctx.cases(10_000, 450_000),
         |c: &RawCase, st: &mut Stats| pipeline(&unhex(&c.hex), c.key, st),
     );
     rep
